@@ -14,6 +14,10 @@ pub struct Case {
     /// per write: (put?, key index; indexes repeat => repeated keys)
     pub writes: Vec<(bool, u32)>,
     pub stacked: bool,
+    /// (write index, call index): that filesystem call of that write fails once with EIO; the
+    /// growth bound must hold again for the writes that follow
+    #[serde(default)]
+    pub fault: Option<(u32, u32)>,
 }
 
 fn period(k: usize) -> u128 {
@@ -53,7 +57,13 @@ pub fn judge(root: &Path, c: &Case) -> Result<bool, (String, String)> {
             crate::shim::begin_op(i as u32);
             let name = format!("k{}", key);
             let op = Op { kind: if *put { OpKind::Put } else { OpKind::Set }, key: KeySpec::new(&name, *key as u64, !(*key as u64)), val: Val::new(&name, 1, i as u32, 1), pop: Pop::Value, nosy: false, link_from: None };
+            if let Some((w, k)) = c.fault {
+                if w as usize == i {
+                    crate::shim::set_fault(crate::shim::Fault::Inject(k, libc::EIO));
+                }
+            }
             let (ret, _) = exec(&root, &h, &op);
+            crate::shim::set_fault(crate::shim::Fault::None);
             let count = crate::shim::bypass(|| std::fs::read_dir(root.join("cache")).map(|rd| rd.flatten().filter(|e| !e.file_name().to_string_lossy().starts_with('.')).count()).unwrap_or(0));
             rets.push((ret, count));
         }
@@ -73,7 +83,8 @@ pub fn judge(root: &Path, c: &Case) -> Result<bool, (String, String)> {
             if let Ret::Panic(m) = ret {
                 return Err(("c10:panic".to_string(), format!("write #{} panicked: {}", i, m)));
             }
-            if ret.is_err() {
+            let faulted = c.fault.map(|f| f.0 as usize == i).unwrap_or(false);
+            if ret.is_err() && !faulted {
                 return Err(("c10:error".to_string(), format!("write #{} failed: {}", i, ret.short())));
             }
             let name = format!("k{}", c.writes[i].1);
@@ -87,11 +98,14 @@ pub fn judge(root: &Path, c: &Case) -> Result<bool, (String, String)> {
                     }
                     true
                 }
+                (Some(_), None) if faulted => true,
                 (Some(_), None) => return Err(("c10:error".to_string(), format!("write #{} never published", i))),
                 (None, _) => false,
             };
             maintained.push(m);
-            if (*count as u128) > k as u128 + p {
+            // (the write whose maintenance was made to fail may leave the directory one round behind)
+            let after_fault = c.fault.map(|f| i as u32 > f.0 + p as u32).unwrap_or(true);
+            if after_fault && (*count as u128) > k as u128 + p {
                 return Err(("c10:growth".to_string(), format!("capacity {} (period {}): {} files after write #{}; bound is {}; maintained so far: {:?}", k, p, count, i, k as u128 + p, maintained)));
             }
         }
@@ -99,6 +113,12 @@ pub fn judge(root: &Path, c: &Case) -> Result<bool, (String, String)> {
         if p <= maintained.len() as u128 {
             let w = p as usize;
             for start in 0..=(maintained.len() - w) {
+                if let Some((fw, _)) = c.fault {
+                    // windows that contain the faulted write are not judged
+                    if (start..start + w).contains(&(fw as usize)) {
+                        continue;
+                    }
+                }
                 if !maintained[start..start + w].iter().any(|m| *m) {
                     return Err(("c10:window".to_string(), format!("capacity {} (period {}): writes #{}..#{} all skipped maintenance; draws {:?} then {}", k, p, start, start + w - 1, c.draws, c.default_draw)));
                 }
@@ -123,7 +143,7 @@ pub fn judge(root: &Path, c: &Case) -> Result<bool, (String, String)> {
 }
 
 fn small_draw_case(k: usize, stacked: bool) -> Case {
-    Case { capacity: k.to_string(), draws: vec!["3".into(), "1".into(), "2".into(), "3".into(), "1".into(), "3".into(), "2".into(), "1".into()], default_draw: "3".into(), writes: (0..6).map(|i| (i % 2 == 1, i)).collect(), stacked }
+    Case { fault: None, capacity: k.to_string(), draws: vec!["3".into(), "1".into(), "2".into(), "3".into(), "1".into(), "3".into(), "2".into(), "1".into()], default_draw: "3".into(), writes: (0..6).map(|i| (i % 2 == 1, i)).collect(), stacked }
 }
 
 /// With every draw <= 3 every write must maintain (each draw is <= the decrement of any capacity).
@@ -233,13 +253,16 @@ pub fn run(ctx: &Ctx) -> Report {
                 }
                 // fresh and repeated keys, set and put
                 let writes: Vec<(bool, u32)> = (0..len).map(|i| (rng.chance(1, 3), if rng.chance(1, 5) { rng.below(1 + i as u64 / 2) as u32 } else { 1000 + i as u32 })).collect();
-                let c = Case { capacity: k.to_string(), draws: draws.iter().map(|d| d.to_string()).collect(), default_draw: default.to_string(), writes, stacked: (si + k + rep_i as usize) % 4 == 0 };
+                let c = Case { fault: if (si + k) % 5 == 0 && len > 3 { Some((1 + rng.below(2) as u32, rng.below(12) as u32)) } else { None }, capacity: k.to_string(), draws: draws.iter().map(|d| d.to_string()).collect(), default_draw: default.to_string(), writes, stacked: (si + k + rep_i as usize) % 4 == 0 };
                 let r = judge(&scratch.path, &c);
                 let h = fnv(format!("{:?}", c).as_bytes());
                 rep.case(if matches!(r, Ok(true)) { Some(h) } else { None });
                 rep.label(label);
                 if k < 6 {
                     rep.label("period<=1: every write must maintain");
+                }
+                if c.fault.is_some() {
+                    rep.label("one filesystem call of an early write fails once; bound re-checked afterwards");
                 }
                 if rep.samples.len() < 3 && k == 7 + ctx.worker {
                     rep.sample(json!({"case": c}));
@@ -267,7 +290,7 @@ pub fn run(ctx: &Ctx) -> Report {
             // and adversarial large draws: must not panic or overflow
             let s = decrement(*k);
             let draws: Vec<u64> = vec![u64::MAX, (s as u64).max(1), (s as u64).saturating_add(1), u64::MAX - 1, 1 << 63];
-            let c = Case { capacity: k.to_string(), draws: draws.iter().map(|d| d.to_string()).collect(), default_draw: u64::MAX.to_string(), writes: (0..8).map(|i| (i % 3 == 0, i as u32 / 2)).collect(), stacked };
+            let c = Case { fault: None, capacity: k.to_string(), draws: draws.iter().map(|d| d.to_string()).collect(), default_draw: u64::MAX.to_string(), writes: (0..8).map(|i| (i % 3 == 0, i as u32 / 2)).collect(), stacked };
             let r = judge(&scratch.path, &c);
             rep.case(Some(fnv(format!("{:?}", c).as_bytes())));
             rep.label("huge capacity, boundary draws");
